@@ -247,6 +247,11 @@ class VCPythonEngine:
         #
         elif isinstance(tp, (model.StructOrUnion, model.EnumType)):
             # a struct (not a struct pointer) as a function argument
+            if isinstance(tp, model.StructOrUnion):
+                # an initializer naming only some of the fields leaves
+                # the other ones zero, like with ffi.new()
+                self._prnt('  memset((char *)&%s, 0, sizeof(%s));'
+                           % (tovar, tovar))
             self._prnt('  if (_cffi_to_c((char *)&%s, _cffi_type(%d), %s) < 0)'
                       % (tovar, self._gettypenum(tp), fromvar))
             self._prnt('    %s;' % errcode)
